@@ -70,6 +70,10 @@ CHECKS = {
    technique="enumerated conversion/call/lookup cases executed by a llgo-compiled program against CPython 3.11 running the same cases",
    text="Integers of every Go type at their boundary values, special floats, strings and nested lists/tuples are converted through py.List/py.Tuple and the explicit constructors, rendered by Python itself and read back; positional calls of arity 0-6 and all orders of three distinguishable arguments go through two test modules; attributes and modules are looked up by name; a Python call is made from a package init function; the import log must list each module once. The expected text is produced by /usr/bin/python3.11 executing the same calls.",
    note="One program, linked against libpython3.11; import order between different modules is not compared.", ref="§4 C19"),
+ "C04": dict(cat="exploration", engine="tc",
+   technique="bounded-exhaustive enumeration of functions built from defer sites (position x callee kind) and terminators, differential trace vs go1.24.0",
+   text="Every function with one defer site (7 positions x 8 callee kinds x 5 terminators), the 2-site products and every order of the three defer mechanisms (unconditional, conditional bit, loop list) with and without arguments is generated, called in its own goroutine (also through a caller with its own loop defers, with and without recover) and its ordered trace of deferred calls with argument values, recovered values, named result and the way the goroutine ended (return / panic / Goexit) is compared with the reference toolchain on both back ends.",
+   note="Three confirmed root causes (defers in range-over-func bodies; loop-defer groups separated by a non-loop defer; result lost after a recovered re-panic) are recorded per case in known/C04_*.txt.", ref="§4 C04"),
 }
 ALL = ["C%02d" % i for i in range(1, 21)]
 m = {
